@@ -12,6 +12,19 @@ def generic_check(mod, tier, seed):
     run.assumptions = list(getattr(mod, "ASSUMPTIONS", []))
     # (T) theorems
     lv.standard_proof_phase(run, mod.PROP, mod.TARGETS, thorough=(tier == "thorough"))
+    st = generic_suite(run, mod, tier, seed)
+    run.coverage.update({"evaluations": st["evaluations"], "distinct_nontrivial": st["nontrivial"],
+                         "rule": getattr(mod, "RULE", "see input_distribution; non-trivial as defined by the property module"),
+                         "samples": st["samples"], "traces_validated_against_impl": st["evaluations"],
+                         "disagreements_checked": st["disagreements"],
+                         "exhaustive": bool(st["dist"].get("exhaustive", False))})
+    run.coverage["input_distribution"] = st["dist"]
+    return run.finish()
+
+
+def generic_suite(run, mod, tier, seed):
+    """generate, run the implementation, judge with the module's specification, compare with the model"""
+    name = getattr(mod, "SUITE", mod.PROP)
     # (G) generated artefacts
     if hasattr(mod, "regenerate"):
         ok, detail = mod.regenerate()
@@ -21,23 +34,25 @@ def generic_check(mod, tier, seed):
     bins = {}
     for prof in profiles:
         ok, binp, out, dt = lv.build_harness(prof)
-        run.checker_cmds.append("cargo build --offline%s (harness over /repo)" % (" --release" if prof == "release" else ""))
+        cmd = "cargo build --offline%s (harness over /repo)" % (" --release" if prof == "release" else "")
+        if cmd not in run.checker_cmds:
+            run.checker_cmds.append(cmd)
         if not ok:
             run.obligation(False, "harness build (%s) against /repo" % prof, out[-3000:])
         bins[prof] = binp if ok else None
     cases, dist = mod.gen(tier, seed)
-    run.coverage["input_distribution"] = dist
     evaluations = 0
     nontriv = set()
     samples = []
     disagreements = 0
+    in_model = getattr(mod, "in_model", lambda c: True)
     for prof in profiles:
         if not bins[prof]:
             continue
         if hasattr(mod, "prepare"):
-            mod.prepare(cases, lambda rq: lv.run_harness(bins[prof], rq, tag=mod.PROP + prof + "prep")[0])
+            mod.prepare(cases, lambda rq: lv.run_harness(bins[prof], rq, tag=name + prof + "prep")[0])
         reqs = [mod.request(c) for c in cases]
-        resps, problems = lv.run_harness(bins[prof], reqs, tag=mod.PROP + prof)
+        resps, problems = lv.run_harness(bins[prof], reqs, tag=name + prof)
         for pb in problems:
             cid = pb["first_unanswered"]
             c = next((c for c in cases if c["id"] == cid), None)
@@ -59,53 +74,52 @@ def generic_check(mod, tier, seed):
                 samples.append({"request": mod.request(c), "implementation": r})
             if "panic" in r and not getattr(mod, "MODEL_HANDLES_PANIC", False):
                 continue
+            if not in_model(c):
+                continue
             try:
                 irs.append(mod.case_ir(c, r) if not hasattr(mod, "case_ir_p") else mod.case_ir_p(c, r, prof))
                 kept.append(c)
             except Exception as e:   # the observation cannot be expressed in the model's types
-                run.broken.append({"obligation": "correspondence %s: case not expressible" % mod.PROP, "detail": repr(e), "input": c})
+                run.broken.append({"obligation": "correspondence %s: case not expressible" % name, "detail": repr(e), "input": c})
         if hasattr(mod, "spec_global"):
             for v in mod.spec_global(cases, resps):
                 v["profile"] = prof
                 run.violations.append(v)
         # the extracted model (OCaml driver) on every case
         okd, drv, dout, ddt = lv.build_driver()
-        run.checker_cmds.append("coqc extract/Extract.v && genreaders.py && ocamlfind ocamlopt (extracted model driver)")
+        cmd = "coqc extract/Extract.v && genreaders.py && ocamlfind ocamlopt (extracted model driver)"
+        if cmd not in run.checker_cmds:
+            run.checker_cmds.append(cmd)
         run.obligation(okd, "extraction of the model and driver build", dout[-3000:])
         failing = []
         if okd:
-            failing, errors = lv.run_driver(drv, mod.CHECKER, [lv.to_sexp(t) for t in irs], tag=mod.PROP + prof)
-            run.obligation(not errors, "correspondence suite %s/%s evaluated by the extracted model" % (mod.PROP, prof), json.dumps(errors)[:3000])
+            failing, errors = lv.run_driver(drv, mod.CHECKER, [lv.to_sexp(t) for t in irs], tag=name + prof)
+            run.obligation(not errors, "correspondence suite %s/%s evaluated by the extracted model" % (name, prof), json.dumps(errors)[:3000])
             # cross-check of extraction and glue: a sample of the same cases evaluated inside Coq
             rnd = random.Random(seed)
             nsample = min(len(irs), 200 if tier == "quick" else 1000)
             sample_idx = sorted(set(failing[:50]) | set(rnd.sample(range(len(irs)), nsample)))
             header = mod.HEADER
-            cfail, cproblems = lv.run_coq_cases(mod.PROP + prof, header, [lv.to_coq(irs[i]) for i in sample_idx],
+            cfail, cproblems = lv.run_coq_cases(name + prof, header, [lv.to_coq(irs[i]) for i in sample_idx],
                                                 check_fn=mod.CHECKER, shard_size=100)
-            run.checker_cmds.append("coqc cases_*.v (Eval vm_compute in failing %s cases) on a sample [%s]" % (mod.CHECKER, prof))
+            run.checker_cmds.append("coqc cases_*.v (Eval vm_compute in failing %s cases) on a sample [%s/%s]" % (mod.CHECKER, name, prof))
             coq_failing = sorted(sample_idx[j] for j in cfail)
             drv_failing = sorted(i for i in failing if i in set(sample_idx))
             run.obligation(not cproblems and coq_failing == drv_failing,
-                           "extracted driver agrees with vm_compute inside Coq on %d sampled cases" % len(sample_idx),
+                           "extracted driver agrees with vm_compute inside Coq on %d sampled cases (%s/%s)" % (len(sample_idx), name, prof),
                            json.dumps({"problems": cproblems, "coq": coq_failing, "driver": drv_failing})[:3000])
-            run.coverage["coq_vm_compute_cross_checked"] = len(sample_idx)
+            run.coverage["coq_vm_compute_cross_checked"] = run.coverage.get("coq_vm_compute_cross_checked", 0) + len(sample_idx)
         disagreements += len(failing)
         if failing:
             bad = sorted((kept[i] for i in failing), key=lambda c: len(json.dumps(c)))[:5]
             for c in bad:
                 r = resps[c["id"]]
-                run.broken.append({"obligation": "correspondence %s/%s: model and implementation disagree" % (mod.PROP, prof),
+                run.broken.append({"obligation": "correspondence %s/%s: model and implementation disagree" % (name, prof),
                                    "input": mod.request(c), "implementation": r,
                                    "spec_verdict": mod.spec_check(c, r) or "specification not contradicted by the implementation on this input"})
-        run.obligation(okd and not failing, "correspondence %s/%s: model == implementation on every case" % (mod.PROP, prof),
+        run.obligation(okd and not failing, "correspondence %s/%s: model == implementation on every case" % (name, prof),
                        "%d disagreements" % len(failing))
-    run.coverage.update({"evaluations": evaluations, "distinct_nontrivial": len(nontriv),
-                         "rule": getattr(mod, "RULE", "see input_distribution; non-trivial as defined by the property module"),
-                         "samples": samples, "traces_validated_against_impl": evaluations,
-                         "disagreements_checked": disagreements,
-                         "exhaustive": bool(dist.get("exhaustive", False))})
-    return run.finish()
+    return {"evaluations": evaluations, "nontrivial": len(nontriv), "samples": samples, "disagreements": disagreements, "dist": dist}
 
 
 def main():
